@@ -17,14 +17,19 @@ RULE = ("libraries parsed (default stack, empty stack, or with name / month / ke
         "NameParts and MiddlewareErrorBlocks) from grammar documents over small key pools (duplicate keys, duplicate fields) and "
         "their mutations (failed blocks) plus hand-written name documents; x every shipped middleware class and option set "
         "(52 configurations) singly, x seeded stacks of 2 and 3, each in copy mode (checked) and in-place mode (sharing counted); "
-        "write_string x 8 formats; heap stream: the real framework with 9 probe bodies + Resolve/Sort/LibraryMiddleware, both modes, "
+        "write_string x 8 formats; heap stream: the real framework with 9 probe bodies + Resolve/Sort/LibraryMiddleware AND every "
+        "shipped block middleware class x option set against its Coq body model (Model/HeapBodies.v), both modes, "
         "against the Coq model on the same initial heap. distinct = distinct (document, parse option, stack, mode); non-trivial = "
         "the library has at least one entry or string block, i.e. some mutable field/value/metadata object that could be shared")
 TRUSTED = ["heap snapshotter harness/heapsnap.py: walks __dict__, list, dict, set, tuple; fails closed on any other object type; "
            "objects reachable only through C-level state or closures would be invisible (none in the shipped classes)",
            "atoms (str, int, None, bool, exception objects) are hashed to integers for the model; every exception is one atom",
            "string-dependent decisions of Resolve/Sort (which values are bare references; the sort permutation) enter the heap "
-           "model as arguments computed by an independent reference in the harness"]
+           "model as arguments computed by an independent reference in the harness",
+           "string-level results of the shipped bodies (stripped/enclosed text, month names, lowered keys, sort ranks, name "
+           "splits and validity, merged names, LaTeX conversions and their errors) enter the body models as finite tables over "
+           "atoms computed by harness/props/c07_bodies.py with the implementation's own string helpers; the footprint theorem "
+           "C07_shipped_footprints holds for EVERY table"]
 ASSUMPTIONS = ["copy.deepcopy is CPython's: in the theorems it is a Section variable DC with the contract dc_contract (heap only "
                "grows and stays well formed, old objects unchanged, everything reachable from the copy is fresh); the executable "
                "fuelled copy used to run the model is shown to satisfy the contract on the example heaps by vm_compute and is "
@@ -127,6 +132,9 @@ def make_mw(spec, inplace):
 def parse(text, opt):
     import bibtexparser
     import bibtexparser.middlewares as M
+    if opt == "split_unwrap":
+        import props.c07_bodies as B
+        return B.unwrap_parts(parse(text, "split"))
     if opt == "default":
         return bibtexparser.parse_string(text)
     if opt == "raw":
